@@ -328,6 +328,11 @@ class Oracle:
         else:
             # set by an earlier process and reopened with another constructor argument: either may be in force
             allow_missing = obs.cfg_allow_pre if obs.cfg_allow_pre is not None else self.allow_ctor
+        if w.wrong_directive is not None:
+            _o, k_, n_ = w.wrong_directive
+            w.wrong_directive = None
+            return self._v("19e" if self.c19 else "18a", "key %d is requested with validate=%s but the cache called the "
+                           "validator registered as %r" % (k_, w.keys[k_].get("vn", "v"), n_), obs)
         # --- classify the request ------------------------------------------------
         rejected = set()
         for (_op, key, verdict) in obs.validator_calls:
@@ -700,6 +705,10 @@ class Oracle:
                 return "a truncated copy (%d of %d bytes)" % (len(data), len(a))
         kd = w.keys[k]
         if kd.get("pp"):
+            other = "pp" if kd.get("ppn", "pp") == "pp2" else "pp2"
+            for raw in w.store.all_versions(kd["res"]):
+                if data == (b"Q2(" if other == "pp2" else b"PP(") + raw[::-1] + b")":
+                    return "the output of the post-processor registered as %r, but the uri names %r" % (other, kd.get("ppn", "pp"))
             for raw in w.store.all_versions(kd["res"]):
                 if data == raw:
                     return "the raw download that never went through the post-processor"
@@ -707,8 +716,7 @@ class Oracle:
                     return "a truncated raw download (%d of %d bytes)" % (len(data), len(raw))
         else:
             for raw in w.store.all_versions(kd["res"]):
-                pp = b"PP(" + raw[::-1] + b")"
-                if data == pp:
+                if data in (b"PP(" + raw[::-1] + b")", b"Q2(" + raw[::-1] + b")"):
                     return "post-processed bytes although no post-processing was requested"
         return "%d unexpected bytes starting %r" % (len(data), data[:24])
 
@@ -799,6 +807,12 @@ class Oracle:
             self.probe("config_edited")
         elif obs.kind == "SETCFG":
             return self._check_setcfg(obs)
+        elif obs.kind == "SETDIR":
+            if obs.exc is not None:
+                return self._v("19d-poison" if self.c19 else "18a", "managing directive functions (%s %s) raised %r"
+                               % (obs.op.get("what"), obs.op.get("directive"), obs.exc), obs)
+            if obs.result is not None:
+                self.probe("directive_function_" + obs.result[0])
         return None
 
     def _check_setcfg(self, obs):
